@@ -148,35 +148,51 @@ harness! {
     }
 }
 
-macro_rules! c14_trim_matches {
+macro_rules! c14_trim_matches_str {
     ($name:ident, $m:ident, $o:literal) => {
         harness! {
-            /// kind=bounded tier=quick bound="valid UTF-8 remainder<=4 bytes; &str pattern<=2 bytes (empty included) and char pattern (any char); Parser::new or with_start_offset(<=1000)"
+            /// kind=bounded tier=quick bound="valid UTF-8 remainder<=4 bytes; &str pattern<=2 bytes (empty included); Parser::new or with_start_offset(<=1000)"
             #[kani::unwind(8)]
             #[kani::stub(konst_kernel::string::non_char_boundary_panic, crate::hlib::stub_non_char_boundary_panic)]
             fn $name(s) {
                 let hs = BStr::<4>::any(s);
                 let h = hs.as_str();
                 let p = mk(s, h);
-                if s.bool() {
-                    let ps = BStr::<2>::any(s);
-                    let pat = ps.as_str();
-                    chk!(s, rem_eq(p.$m(pat).remainder(), string::$m(h, pat)), $o);
-                    cov!(s, pat.len() == 1 && string::$m(h, pat).len() == 1 && h.len() == 4, "C14.cover.trim_matches_str_one_byte_reps");
-                    cov!(s, pat.len() == 2 && string::$m(h, pat).len() == 0 && h.len() == 4, "C14.cover.trim_matches_str_two_reps");
-                    cov!(s, pat.len() == 0 && h.len() == 4, "C14.cover.trim_matches_str_empty_pattern");
-                } else {
-                    let c = s.char();
-                    chk!(s, rem_eq(p.$m(c).remainder(), string::$m(h, c)), $o);
-                    cov!(s, c.len_utf8() == 2 && string::$m(h, c).len() == 0 && h.len() == 4, "C14.cover.trim_matches_char2_two_reps");
-                }
+                let ps = BStr::<2>::any(s);
+                let pat = ps.as_str();
+                chk!(s, rem_eq(p.$m(pat).remainder(), string::$m(h, pat)), $o);
+                cov!(s, pat.len() == 1 && string::$m(h, pat).len() == 1 && h.len() == 4, "C14.cover.trim_matches_str_one_byte_reps");
+                cov!(s, pat.len() == 2 && string::$m(h, pat).len() == 0 && h.len() == 4, "C14.cover.trim_matches_str_two_reps");
+                cov!(s, pat.len() == 0 && h.len() == 4, "C14.cover.trim_matches_str_empty_pattern");
             }
         }
     };
 }
-c14_trim_matches! {c14_trim_start_matches, trim_start_matches, "C14.trim_start_matches.eq_string_trim_start_matches"}
-c14_trim_matches! {c14_trim_end_matches, trim_end_matches, "C14.trim_end_matches.eq_string_trim_end_matches"}
-c14_trim_matches! {c14_trim_matches, trim_matches, "C14.trim_matches.eq_string_trim_matches"}
+c14_trim_matches_str! {c14_trim_start_matches_str, trim_start_matches, "C14.trim_start_matches.eq_string_trim_start_matches"}
+c14_trim_matches_str! {c14_trim_end_matches_str, trim_end_matches, "C14.trim_end_matches.eq_string_trim_end_matches"}
+c14_trim_matches_str! {c14_trim_matches_str, trim_matches, "C14.trim_matches.eq_string_trim_matches"}
+
+macro_rules! c14_trim_matches_char {
+    ($name:ident, $m:ident, $o:literal) => {
+        harness! {
+            /// kind=bounded tier=quick bound="valid UTF-8 remainder<=4 bytes; char pattern (any char); Parser::new or with_start_offset(<=1000)"
+            #[kani::unwind(8)]
+            #[kani::stub(konst_kernel::string::non_char_boundary_panic, crate::hlib::stub_non_char_boundary_panic)]
+            fn $name(s) {
+                let hs = BStr::<4>::any(s);
+                let h = hs.as_str();
+                let p = mk(s, h);
+                let c = s.char();
+                chk!(s, rem_eq(p.$m(c).remainder(), string::$m(h, c)), $o);
+                cov!(s, c.len_utf8() == 2 && string::$m(h, c).len() == 0 && h.len() == 4, "C14.cover.trim_matches_char2_two_reps");
+                cov!(s, c.len_utf8() == 1 && string::$m(h, c).len() == 2 && h.len() == 4, "C14.cover.trim_matches_char1");
+            }
+        }
+    };
+}
+c14_trim_matches_char! {c14_trim_start_matches_char, trim_start_matches, "C14.trim_start_matches.eq_string_trim_start_matches"}
+c14_trim_matches_char! {c14_trim_end_matches_char, trim_end_matches, "C14.trim_end_matches.eq_string_trim_end_matches"}
+c14_trim_matches_char! {c14_trim_matches_char, trim_matches, "C14.trim_matches.eq_string_trim_matches"}
 
 harness! {
     /// kind=bounded tier=quick bound="valid UTF-8 remainder<=4 bytes, &str needle<=2 bytes (empty included); Parser::new or with_start_offset(<=1000)"
